@@ -420,6 +420,21 @@ def check(prop, tier, seed):
                     violations.append({"key": "request:" + d["request"][:200], "input": d["request"].split(" ")[-1], "entry": ch,
                                        "detail": "implementation: %s ; reference: %s" % (d["go"][-600:], d["lean"][-600:])})
                 broken.append({"kind": "channel", "name": ch, "detail": "%d of %d requests differ" % (st["disagreements"], st["requests"])})
+            elif st["disagreements"] and ch in cfg.get("channel_accepts", {}) and any(
+                    d["lean"].startswith("OK") and d["go"].startswith("ERR") for d in st["diffs"]):
+                # the model side of this channel is PROVED to accept only sentences of the documented grammar (theorem named in
+                # the registry): an input the model accepts and the implementation rejects is a documented form that is rejected
+                for d in [d for d in st["diffs"] if d["lean"].startswith("OK") and d["go"].startswith("ERR")][:5]:
+                    hx = d["request"].split(" ")[-1]
+                    try:
+                        txt = bytes.fromhex(hx).decode("utf-8", "replace")
+                    except ValueError:
+                        txt = hx
+                    violations.append({"key": "accepts:%s:%s" % (ch, hx[:200]), "input": hx, "text": txt, "entry": ch,
+                                       "detail": "the verified model accepts this input, hence (%s) it is a sentence of the documented grammar; the implementation rejects it: %s" % (
+                                           cfg["channel_accepts"][ch], d["go"][:300])})
+                broken.append({"kind": "channel", "name": ch, "detail": "%d of %d requests differ" % (st["disagreements"], st["requests"]),
+                               "diffs": st["diffs"], "hint_requests": st.get("hint_requests", [])})
             elif st["disagreements"]:
                 broken.append({"kind": "channel", "name": ch,
                                "detail": "%d of %d requests differ; first: %s" % (st["disagreements"], st["requests"], json.dumps(st["diffs"][0])[:1500]),
